@@ -59,6 +59,14 @@ class Ctx:
         self.scratch = tempfile.mkdtemp(prefix=f"cv-{prop}-", dir=base)
         self.outdir = os.path.join(self.scratch, "out")
         os.makedirs(self.outdir)
+        # second file-system configuration: in the thorough tier every other scratch cache lives on the disk-backed
+        # file system under /tmp (ext4/overlay here) instead of tmpfs
+        self.scratch2 = None
+        if tier != "quick" and os.environ.get("CV_NO_SECOND_FS") is None:
+            try:
+                self.scratch2 = tempfile.mkdtemp(prefix=f"cv-{prop}-", dir="/tmp")
+            except OSError:
+                self.scratch2 = None
         self.pool = drv.Pool(self.outdir)
         self.rng = random.Random(f"{seed}:{prop}")
         self.counters = collections.Counter()
@@ -78,15 +86,22 @@ class Ctx:
         self.quick = tier == "quick"
 
     # ------------------------------------------------------------ scratch
+    def _base(self):
+        if self.scratch2 and self._ncache % 2 == 1:
+            self.counters["scratch_dirs_on_disk_fs"] += 1
+            return self.scratch2
+        self.counters["scratch_dirs_on_tmpfs"] += 1
+        return self.scratch
+
     def new_cache(self, name=None):
         self._ncache += 1
-        d = os.path.join(self.scratch, name or f"c{self._ncache}")
+        d = os.path.join(self._base(), name or f"c{self._ncache}")
         os.makedirs(d, exist_ok=True)
         return os.path.join(d, "cache")
 
     def new_dir(self, name=None):
         self._ncache += 1
-        d = os.path.join(self.scratch, name or f"d{self._ncache}")
+        d = os.path.join(self._base(), name or f"d{self._ncache}")
         os.makedirs(d, exist_ok=True)
         return d
 
@@ -228,6 +243,8 @@ class Ctx:
             json.dump(ev, f, indent=1, default=str)
         os.replace(tmp, os.path.join(EVIDENCE_DIR, f"{self.prop}.json"))
         shutil.rmtree(self.scratch, ignore_errors=True)
+        if self.scratch2:
+            shutil.rmtree(self.scratch2, ignore_errors=True)
         n = cov["evaluations"]
         print(f"[{self.prop}] tier={self.tier} seed={self.seed} evaluations={n} "
               f"distinct={cov['distinct_nontrivial']} violations={len(self.violations)} "
@@ -248,6 +265,8 @@ class Ctx:
         except Exception:
             pass
         shutil.rmtree(self.scratch, ignore_errors=True)
+        if getattr(self, "scratch2", None):
+            shutil.rmtree(self.scratch2, ignore_errors=True)
 
 
 # ---------------------------------------------------------------- response helpers
